@@ -528,6 +528,18 @@ func (e *Exec) obligation(c Bool, label, kind string) {
 			}
 		}
 	}
+	if r == RUnknown {
+		// patient retry: a loaded machine must not turn a decidable query into a broken check
+		for i, k := range []SolverKind{e.sol.kind, CVC5, Z3New, Z3} {
+			if i > 0 && k == e.sol.kind {
+				continue
+			}
+			r, model = oneShot(k, e.sol.log, neg, vars, e.timeoutMs*8)
+			if r != RUnknown {
+				break
+			}
+		}
+	}
 	switch r {
 	case RUnsat:
 		e.stats.Discharged++
